@@ -1,3 +1,5 @@
 import KitProofs.Props.C02
+import KitProofs.Props.C01Code
 import KitProofs.Census
 #census KitProofs.Props.C02
+#census KitProofs.Props.C01Code
